@@ -4,13 +4,13 @@ P = "c03::proofs::"
 hs = []
 for a, b in [(1, 1), (1, 2), (1, 3), (2, 1), (2, 2), (2, 3), (3, 1), (3, 2), (3, 3), (4, 6), (6, 4), (6, 6)]:
     big = a > 3 or b > 3
-    hs.append(H(P + "c03_cmp_%d_%d" % (a, b), tier="thorough" if big else "quick", timeout=300, mem=6, covers=1 if a > b else 3,
+    hs.append(H(P + "c03_cmp_%d_%d" % (a, b), tier="thorough" if big else "quick", timeout=300, mem=6, covers=3,
                 desc="Ord for tree::EntryRef and tree::Entry == git base_name_compare (implicit '/' after directories); antisymmetric",
                 inputs="names of %d and %d bytes (all values except NUL and '/'); both modes all u16" % (a, b), bound="unwind 5 (8 for the 6-byte instances)"))
 hs.append(H(P + "c03_order_transitive", timeout=300, mem=6, covers=1,
             desc="the order is transitive on any three entries", inputs="3 names of 1..2 bytes (symbolic length), modes all u16", bound="unwind 5"))
 for k in (1, 2, 3, 4):
-    hs.append(H(P + "c03_bisect_%d" % k, tier="quick" if k <= 3 else "thorough", timeout=600, mem=8, covers=2 if k == 1 else 3,
+    hs.append(H(P + "c03_bisect_%d" % k, tier="quick" if k <= 3 else "thorough", timeout=600, mem=8, covers=3,
                 desc="TreeRef::bisect_entry(name,is_dir) is Some(e) iff a linear scan finds an entry with that name and directory-ness; e is that entry",
                 inputs="%d entries strictly sorted by git's base_name_compare, names 1..2 bytes (symbolic length, all values except NUL,'/'), modes all u16; query name 1..2 bytes, is_dir symbolic" % k,
                 bound="unwind 6"))
